@@ -69,6 +69,14 @@ def replay_sql(exe, failures):
             elif t[0] in TOKEN_TEXT:
                 words.append(TOKEN_TEXT[t[0]])
                 rtoks.append((t[0], None))
+            elif t[0] == "FStringLit":
+                import replay_grammar as RG
+                w = RG.words_of([tuple(t)])
+                if w is None:
+                    ok = False
+                else:
+                    words.append(w[0])
+                    rtoks.append(RG.ref_tokens([tuple(t)])[0])
             else:
                 ok = False
         if not ok:
